@@ -168,6 +168,9 @@ def __distribute_ors_switching(f: Formula, fresh: int) -> FormulaAndFresh:
                                       f.input_list,
                                       (cast(List[Formula], []), fresh))
         clauses.sort(key=__order_clauses)
+        if len(clauses) == 0:
+            # An empty disjunction (false) has nothing to distribute
+            return (f, fresh)
         if len(clauses) > 1:
             if __should_not_combine(clauses):
                 return (f, fresh)
